@@ -237,13 +237,15 @@ def run(chk):
 
     # selectors whose nested steps are one or two characters long (dictionary keys: language codes, observed-data member keys): the same laws
     from props.C08 import shapes as sel_shapes
-    short = {'language-content21': ['contents.de', 'contents.de.name', 'contents.fr.name', 'contents'], 'observed-data20': ['objects.0', 'objects.0.name', 'objects.a1.value', 'objects']}
+    short = {'language-content21': ['contents.de', 'contents.de.name', 'contents.fr.name', 'contents', 'contents.en.name', 'contents.en-us', 'contents.en-us.description'],
+             'observed-data20': ['objects.0', 'objects.0.name', 'objects.a1.value', 'objects'],
+             'report21 (long lists)': ['labels.[2]', 'labels.[9]', 'labels.[10]', 'labels.[11]', 'object_refs.[10]', 'labels']}
 
     def short_cases():
         for name, sels in short.items():
             for form in ('object', 'dictionary'):
                 for sel in sels:
-                    for m in (M1, LANG) if name.endswith('21') else (M1,): yield (name, form, sel, m)
+                    for m in (M1, LANG) if '21' in name else (M1,): yield (name, form, sel, m)
 
     def short_check(case):
         name, form, sel, m = case
@@ -261,4 +263,4 @@ def run(chk):
             if form == 'object' and stix2.parse(a.serialize()) != a: return ('add#result is a valid object', f'{ctx}: the marked object does not survive serialize/parse', {})
         except (stix2.exceptions.STIXError, ValueError) as ex:
             return ('selector#valid selector rejected:' + type(ex).__name__, f'{ctx}: marking operations on the existing path {sel!r} raised {type(ex).__name__}: {str(ex)[:100]}', {})
-    chk.bounded('selectors with one- and two-character nested steps', list(short_cases()), short_check, classify=lambda c: c, bound='language-content (2.1) and observed-data (2.0), object and dictionary form, 4 selectors each, marking-ref and language markings')
+    chk.bounded('selectors with one- and two-character nested steps', list(short_cases()), short_check, classify=lambda c: c, bound='language-content (2.1; sibling keys en / en-us), observed-data (2.0), a report with lists of 11 and 12 elements; object and dictionary form, 4-7 selectors each, marking-ref and language markings')
